@@ -192,7 +192,7 @@ def run(chk):
     from .c07 import try_of_await
     aws = flow.awaits(ga)
     upa = [a for a in aws if a.call is not None and names.call_is(a.call, "CredentialStore::update_credential")]
-    oks = [s["bb"] for s in flow.outcome_sites(ga) if s["kind"] == "Ok" and s["path"] == ()]
+    oks = flow.ok_sites(p, ga)
     if upa and oks and len(ups) == 1:
         from .common import accepted_counter_cut
         ok, upd_ok, no_counter = accepted_counter_cut(p, ga)
